@@ -116,8 +116,10 @@ def snapshot(plan, registry):
         elif type(n) is Literal:
             extra = (id(n.value),)
             keep.append(n.value)
-        nodes.append((id(n), type(n).__name__, n.scope, id(n.scope), extra, id(d), sorted((repr(k), id(v)) for k, v in d.items())))
-        keep.append(n.scope)
+        # a node of the caller's graph may, after a faulty run/render, be an object that is not a Node at all
+        sc = getattr(n, "scope", "<object without scope: %s>" % type(n).__name__)
+        nodes.append((id(n), type(n).__name__, sc, id(sc), extra, id(d), sorted((repr(k), id(v)) for k, v in d.items())))
+        keep.append(sc)
     s["nodes"] = nodes
     edges = []
     for u, v, k, d in g.edges(keys=True, data=True):
